@@ -350,3 +350,82 @@ def walk_no_nested(node: ast.AST):
         if isinstance(n, (ast.FunctionDef, ast.AsyncFunctionDef, ast.ClassDef, ast.Lambda)):
             continue
         todo.extend(ast.iter_child_nodes(n))
+
+
+def _pos_lits(e: ast.expr) -> List[str]:
+    if isinstance(e, ast.BoolOp) and isinstance(e.op, ast.And):
+        return [x for v in e.values for x in _pos_lits(v)]
+    if isinstance(e, ast.UnaryOp) and isinstance(e.op, ast.Not):
+        return _neg_lits(e.operand)
+    return [norm(e)]
+
+
+def _neg_lits(e: ast.expr) -> List[str]:
+    if isinstance(e, ast.BoolOp) and isinstance(e.op, ast.Or):
+        return [x for v in e.values for x in _neg_lits(v)]
+    if isinstance(e, ast.UnaryOp) and isinstance(e.op, ast.Not):
+        return _pos_lits(e.operand)
+    if isinstance(e, ast.Compare) and len(e.ops) == 1:
+        flip = {ast.Is: "is not", ast.IsNot: "is", ast.Eq: "!=", ast.NotEq: "==", ast.In: "not in", ast.NotIn: "in"}
+        for k, v in flip.items():
+            if isinstance(e.ops[0], k):
+                return [f"{norm(e.left)} {v} {norm(e.comparators[0])}"]
+    return ["not " + norm(e)]
+
+
+def _always_exits(body: List[ast.stmt]) -> bool:
+    return bool(body) and isinstance(body[-1], (ast.Return, ast.Raise, ast.Continue, ast.Break))
+
+
+def dominating_literals(func: ast.AST, target: ast.AST) -> List[str]:
+    """Normalised conditions that hold whenever `target` executes: the tests of the enclosing if/while statements
+    (negated in else-branches) and the negations of earlier guard clauses (`if T: return|raise|continue|break`) of the
+    enclosing blocks; and/or/not are flattened by De Morgan, so `if a and not b:` and `if not a or b: return` give the
+    same literals.  Reassignment of the tested names between test and target is not tracked."""
+    found: List[str] = []
+
+    def contains(n: ast.AST) -> bool:
+        return any(x is target for x in ast.walk(n))
+
+    def block(stmts: List[ast.stmt], lits: List[str]) -> bool:
+        cur = list(lits)
+        for s in stmts:
+            if contains(s):
+                return stmt(s, cur)
+            if isinstance(s, ast.If) and not s.orelse and _always_exits(s.body):
+                cur = cur + _neg_lits(s.test)
+            elif isinstance(s, ast.If) and s.orelse and _always_exits(s.body) and not _always_exits(s.orelse):
+                cur = cur + _neg_lits(s.test)
+            elif isinstance(s, ast.If) and s.orelse and _always_exits(s.orelse) and not _always_exits(s.body):
+                cur = cur + _pos_lits(s.test)
+        return False
+
+    def stmt(s: ast.stmt, lits: List[str]) -> bool:
+        if s is target:
+            found.extend(lits)
+            return True
+        if isinstance(s, ast.If):
+            if any(x is target for x in ast.walk(s.test)):
+                found.extend(lits)
+                return True
+            if any(contains(b) for b in s.body):
+                return block(s.body, lits + _pos_lits(s.test))
+            return block(s.orelse, lits + _neg_lits(s.test))
+        if isinstance(s, ast.While):
+            if any(contains(b) for b in s.body):
+                return block(s.body, lits + _pos_lits(s.test))
+            return block(s.orelse, lits)
+        for fld in ("body", "orelse", "finalbody"):
+            sub = getattr(s, fld, None)
+            if isinstance(sub, list) and sub and isinstance(sub[0], ast.stmt) and any(contains(b) for b in sub):
+                return block(sub, lits)
+        if isinstance(s, ast.Try):
+            for h in s.handlers:
+                if any(contains(b) for b in h.body):
+                    return block(h.body, lits)
+        # target is an expression inside this simple statement
+        found.extend(lits)
+        return True
+
+    block(getattr(func, "body", []), [])
+    return found
